@@ -111,6 +111,9 @@ type DevSpec struct {
 	Noise    []string     `json:"noise,omitempty"`
 	NoisePct int          `json:"noise_pct,omitempty"`
 	DelayUS  int64        `json:"delay_max_us,omitempty"` // device pauses up to this long before replies/prompts
+	// SlowEcho: the device takes SlowEchoUS before it starts echoing line number SlowEchoAt
+	SlowEchoAt int   `json:"slow_echo_at,omitempty"`
+	SlowEchoUS int64 `json:"slow_echo_us,omitempty"`
 }
 
 // Session is the scenario type of the session-based properties.
@@ -169,10 +172,13 @@ type Session struct {
 	CutTo   int  `json:"cut_to,omitempty"`
 	// Holds is the sched-hold fault plan (C07): goroutines descheduled after a hook point.
 	Holds []HoldSpec `json:"holds,omitempty"`
-	State string     `json:"state,omitempty"` // C07: connection state at the time of Close
-	Plan  *LoginPlan `json:"plan,omitempty"`  // C10: the reference for the login dialogue
-	Ex    []string   `json:"ex,omitempty"`    // C12: escalation outcomes per authenticated edge
-	Sub   string     `json:"sub,omitempty"`   // C11: which generator the scenario came from
+	// Force (C07): an order of two hook points of different roles that the controller forces
+	// inside the shutdown window (see kernel.ForceSpec)
+	Force *kernel.ForceSpec `json:"force,omitempty"`
+	State string            `json:"state,omitempty"` // C07: connection state at the time of Close
+	Plan  *LoginPlan        `json:"plan,omitempty"`  // C10: the reference for the login dialogue
+	Ex    []string          `json:"ex,omitempty"`    // C12: escalation outcomes per authenticated edge
+	Sub   string            `json:"sub,omitempty"`   // C11: which generator the scenario came from
 }
 
 // HoldSpec deschedules goroutines of role Base for DurUS after they pass Point, with
@@ -289,6 +295,9 @@ func buildDevice(ds *DevSpec) *peer.CLI {
 	d.Noise = ds.Noise
 	d.NoisePct = ds.NoisePct
 	d.DelayMax = Micro(ds.DelayUS)
+	if ds.SlowEchoUS > 0 {
+		d.LineEchoDelay = map[int]time.Duration{ds.SlowEchoAt: Micro(ds.SlowEchoUS)}
+	}
 
 	return d
 }
@@ -345,7 +354,8 @@ func opOpts(sc *Session, op *OpSpec) []util.Option {
 		o = append(o, opoptions.WithPrivilegeLevel(op.Priv))
 	}
 	if len(op.Complete) > 0 {
-		var ps []*regexp.Regexp
+		// (a caller's slice may well have room to spare)
+		ps := make([]*regexp.Regexp, 0, len(op.Complete)+3)
 		for _, p := range op.Complete {
 			ps = append(ps, regexp.MustCompile(p))
 		}
